@@ -528,6 +528,28 @@ Fixpoint run_c (g : geom) (st : cst) (ops : list op) : cst * list (Z * list Z * 
       (st2, (c_scan st, cs, rs, c_scan st1) :: tr)
   end.
 
+
+(* hazard 6 (context controller): the skip code recognises "the next iMCU row has already been decoded" only
+   0 or 1 rows before the iMCU boundary (lines_left_in_iMCU_row <= 1 && buffer_full); with max_v_samp_factor = 4
+   that is also the case 2 and 3 rows before it, and the decoded row is then dropped without being accounted for *)
+Definition skip_c_hazard (g : geom) (st : cst) (n : Z) : bool :=
+  if gH g <=? c_scan st + n then false
+  else if n =? 0 then false
+  else
+    let L := gL g in
+    let ll := (L - c_scan st mod L) mod L in
+    let la := n - ll in
+    if (n <? ll + 1) || ((ll <=? 1) && c_bfull st && (la <? L + 1)) then false
+    else (1 <? ll) && c_bfull st.
+
+Fixpoint first_hazard_c (g : geom) (st : cst) (ops : list op) : Z :=
+  match ops with
+  | [] => 0
+  | o :: t =>
+      if match o with Skip n => skip_c_hazard g st n | Read _ => false end then 6
+      else first_hazard_c g (fst (step_c g st o)) t
+  end.
+
 (* what a full decode reads, for the tracked component, to produce output row y *)
 Definition ideal_c (g : geom) (y : Z) : prov :=
   let G := y / gv g in let k := y mod gv g in
